@@ -1730,7 +1730,23 @@ struct Gen {
       c.inputs[rng.below(c.inputs.size())] = repl;
       return "replace-input";
     }
-    case 13: c.always = !c.always; return "always";
+    case 13: {
+      if (rng.chance(500)) { c.always = !c.always; return "always"; }
+      // a node moves from the end of the input list to the front of the output list: the command now produces what it used
+      // to read (the concatenation of the two lists of names stays the same)
+      if (c.inputs.size() < 2 || c.name == "R0" || c.name == "W0") return "none";
+      std::string x = c.inputs.back();
+      if (desc.producer(x) || isVirtualNode(x) || isDirNode(x)) return "none";
+      for (auto& other : desc.cmds)
+        if (&other != &c && std::find(other.inputs.begin(), other.inputs.end(), x) != other.inputs.end()) return "none";
+      for (auto& other : desc.cmds)
+        for (auto& e : other.extra)
+          if (e == x) return "none";
+      c.inputs.pop_back();
+      c.outputs.insert(c.outputs.begin(), x);
+      sources.erase(x);
+      return "input-to-output";
+    }
     default: {
       // add a new command consuming an existing product
       Cmd n;
@@ -1778,6 +1794,15 @@ struct Gen {
       Json op = Json::obj().set("op", "build");
       if (desc.targets.count("second") && rng.chance(150)) op.set("target", util::hex("second"));
       else op.set("target", util::hex(""));
+      if ((property == "C08" || property == "C09" || property == "C10") && rng.chance(120)) {
+        // build a single node instead of a target
+        std::vector<std::string> files;
+        for (auto& c : desc.cmds)
+          if (c.tool == "shell")
+            for (auto& o : c.outputs)
+              if (!isVirtualNode(o) && !isDirNode(o)) files.push_back(o);
+        if (!files.empty()) op.set("node", util::hex(files[rng.below(files.size())]));
+      }
       if (hist.a.size() > 0 && rng.chance(300)) op.setb("reuse", true);   // same client process as the previous build, if the description allows
       if (property == "C05" && rng.chance(550))
         op.set("cancel", Json::obj().set("n", (int64_t)rng.below(6)).set("yields", (int64_t)rng.below(25)));
